@@ -68,6 +68,23 @@ func main() {
 				}
 			}
 		}
+	case "loops":
+		v, err := loadVerifier(*repo)
+		if err != nil {
+			fmt.Fprintln(os.Stderr, "INTERNAL-ERROR load:", err)
+			os.Exit(3)
+		}
+		for k, fn := range v.fnByKey {
+			for _, p := range pos {
+				if strings.HasSuffix(k, "::"+p) {
+					x := &fnExec{v: v, fn: fn, loops: map[*ssa.BasicBlock]*loopInfo{}}
+					x.findLoops()
+					for h, li := range x.loops {
+						fmt.Printf("%s loop %d: head block %d (%s) at %s\n", p, li.ordinal, h.Index, h.Comment, v.prog.Fset.Position(x.loopPos(h)))
+					}
+				}
+			}
+		}
 	case "list":
 		v, err := loadVerifier(*repo)
 		if err != nil {
@@ -122,7 +139,7 @@ func contractHasProp(c *FuncContract, p string) bool {
 			return true
 		}
 	}
-	for _, lists := range [][]*Clause{c.Requires, c.Ensures, c.Invariants, c.Effects, c.AtCall, c.AtSend} {
+	for _, lists := range [][]*Clause{c.Requires, c.Ensures, c.Invariants, c.Steps, c.Effects, c.AtCall, c.AtSend} {
 		for _, cl := range lists {
 			for _, q := range cl.Props {
 				if q == p {
@@ -292,7 +309,7 @@ func runCheck(prop, tier, repo string, verbose, safety bool, timeout int) int {
 		}
 	}
 	if timeout == 0 {
-		timeout = 10
+		timeout = 8
 		if tier == "thorough" {
 			timeout = 60
 		}
@@ -391,6 +408,13 @@ func runCheck(prop, tier, repo string, verbose, safety bool, timeout int) int {
 			fmt.Printf("VIOLATION property=%s replay=%s%s\n", prop, rp, tail)
 		}
 		perObl = append(perObl, map[string]interface{}{"name": name, "kind": g.Kind, "paths": len(g.Obls), "solver": g.Solver, "time_s": round3(g.Time), "discharged": len(g.Failed) == 0})
+	}
+	if os.Getenv("GOVC_SLOW") != "" {
+		for _, o := range obls {
+			if o.Wall > 2 {
+				fmt.Printf("SLOW %.1fs %s %s %s\n", o.Wall, o.Result, o.Solver, o.Name)
+			}
+		}
 	}
 	for _, l := range knownLines {
 		fmt.Println(l)
